@@ -407,6 +407,10 @@ def gen_logs(rng, n, tids=None, with_tai=False):
     pool = [rng.ident(2, 8) for _ in range(3)]
     if rng.chance(0.3):
         pool[0] = rng.pick(['2048', '7', '007', '0', '12345'])       # an executable may be called like a number
+    if rng.chance(0.25):
+        stem = 'com.apple.' + rng.ident(9, 9)          # 19 characters: what a thread map's 20-byte name field can hold
+        pool[1] = stem + rng.ident(1, 12)
+        pool[2] = rng.pick([stem, stem + rng.ident(1, 5)])
     for i in range(n):
         ev = {'cm': sidx('msg %d %s' % (i, rng.ident())), 't': rng.pick(['Log', 'Activity', 'Signpost']),
               's': rng.randrange(0, 4096), 'tid': rng.pick(tids) if tids and rng.chance(0.6) else rng.pick([0, 0, 77, 4242]),
